@@ -1,7 +1,7 @@
 From Coq Require Import ZArith Lia.
 From RsdnsModel Require Import Base GenConst GenCursor GenHeader GenSpec Cursor Names Labels Header Tracker RData Reader Writer.
-From RsdnsModel.Spec Require Import WireName RDataWire.
-From RsdnsModel.Proofs Require Import CursorSafe ListN Bits WriterLayout RecordRT RDataRT ParseSpec RecordFull.
+From RsdnsModel.Spec Require Import WireName LinearPass RDataWire.
+From RsdnsModel.Proofs Require Import CursorSafe ListN Bits WriterLayout RecordRT RDataRT ParseSpec RecordFull ReaderRefine MessageRT.
 From RsdnsModel.Properties Require Import C02.
 Open Scope N_scope.
 Check (C02_header_fields : forall msg, 12 <= lenN msg ->
@@ -44,4 +44,21 @@ Check (C02_record_roundtrip : forall msg nk c ls r pre post ty cl ttl a p s,
     m_rtype mk = ty /\ m_rclass mk = cl /\ m_ttl mk = ttl /\ m_rdlen mk = lenN (rdata_enc a) /\ m_section mk = s /\
     read_rdata msg ty (m_rdlen mk) = Some m /\ m c2 = (c3, Ok (rdata_val a)) /\
     pos c3 = r + 10 + lenN (rdata_enc a)).
-Print Assumptions C02_header_fields. Print Assumptions C02_flags. Print Assumptions C02_opt_fields. Print Assumptions C02_opt_do. Print Assumptions C02_a_record_roundtrip_plain. Print Assumptions C02_fixed_part_roundtrip. Print Assumptions C02_rdata_roundtrip_all_types. Print Assumptions C02_record_roundtrip.
+Check (C02_standing_items : forall msg,
+  (forall p q e, question_stands msg p q e -> question_at msg p = Some (qitem p q e)) /\
+  (forall p x e, record_stands msg p x e -> record_at msg p = Some (ritem p x e))).
+Check (C02_whole_message_parsed : forall msg nq an ns ar (qs : list squestion) (rs : list srecord) e1 e2,
+  lenN msg <= 65535 -> 12 <= lenN msg ->
+  questions_stand msg 12 qs e1 -> records_stand msg e1 rs e2 ->
+  lenN qs = nq -> lenN rs = an + ns + ar -> nq <= 65535 -> an <= 65535 -> ns <= 65535 -> ar <= 65535 ->
+  exists qends rends,
+    parsed msg nq an ns ar (qitems 12 qs qends) (ritems e1 rs rends) e1 e2 /\
+    lenN (qitems 12 qs qends) = nq /\ lenN (ritems e1 rs rends) = an + ns + ar).
+Check (C02_standing_record_decodes : forall msg p x e c,
+  record_stands msg p x e -> whole msg c -> pos c = a_type_off (ritem p x e) + 10 ->
+  exists m, read_rdata msg (sr_type x) (a_rdlen (ritem p x e)) = Some m /\
+            m c = (c_set_pos c e, Ok (rdata_val (sr_data x)))).
+Check (C02_whole_message_example : let q := mkSQ [(12, [x61])] 1 1 in
+  let x := mkSR [(12, [x61])] 1 1 60 (A_A 16909060) in
+  questions_stand example_msg 12 [q] 19 /\ records_stand example_msg 19 [x] 35 /\ lenN example_msg = 35).
+Print Assumptions C02_header_fields. Print Assumptions C02_flags. Print Assumptions C02_opt_fields. Print Assumptions C02_opt_do. Print Assumptions C02_a_record_roundtrip_plain. Print Assumptions C02_fixed_part_roundtrip. Print Assumptions C02_rdata_roundtrip_all_types. Print Assumptions C02_record_roundtrip. Print Assumptions C02_standing_items. Print Assumptions C02_whole_message_parsed. Print Assumptions C02_standing_record_decodes. Print Assumptions C02_whole_message_example.
